@@ -40,6 +40,8 @@ impl<'a> Remote<'a> {
         trace!(?state);
 
         if state.is_scheduled() || state.is_completed() || state.is_cancelled() {
+            #[cfg(compio_verif)]
+            crate::verif::sched_point(crate::verif::REMOTE_EARLY_RETURN);
             self.header().state.finish_scheduling();
             return;
         }
@@ -51,6 +53,12 @@ impl<'a> Remote<'a> {
             self.header().state.finish_scheduling();
             return;
         };
+
+        #[cfg(compio_verif)]
+        {
+            crate::verif::sched_point(crate::verif::REMOTE_HOLDS_SHARED);
+            crate::verif::shared_use(shared as *const crate::Shared as *const ());
+        }
 
         crate::panic_guard!();
 
@@ -136,6 +144,8 @@ impl<'a> Remote<'a> {
                     .with(|waker| cx.waker().will_wake(unsafe { (&*waker).assume_init_ref() }))
             {
                 // Waker is already up-to-date, leave it in place.
+                #[cfg(compio_verif)]
+                crate::verif::sched_point(crate::verif::REMOTE_SETTING_WAKER);
                 state = self.header().state.finish_setting_waker::<true>();
                 if state.has_result() || state.is_cancelled() {
                     // Finished or dropped while we were in the critical section:
@@ -160,6 +170,8 @@ impl<'a> Remote<'a> {
                 waker.write(cx.waker().clone());
             });
 
+            #[cfg(compio_verif)]
+            crate::verif::sched_point(crate::verif::REMOTE_SETTING_WAKER);
             state = self.header().state.finish_setting_waker::<true>();
 
             if state.has_result() || state.is_cancelled() {
